@@ -261,3 +261,37 @@ func H_C12_remoteExec(maxJobs int) {
 		verifCover("remote job waited for a slot")
 	}
 }
+
+// H_C12_jobsOrder: the limit is 1 and job A holds the slot; job W asks for it
+// and waits.  While W waits, A is released and - before W has been scheduled
+// again - a third job B asks for a slot.
+//
+//	C12: each resource is granted in request order: B, which asked after W,
+//	     is not admitted ahead of it.
+func H_C12_jobsOrder() {
+	sem := NewMaxJobsSemaphore(1)
+	mk := func(name string) *Metadata { return NewMetadata("ID.ps.P."+name, "/ps/P/"+name) }
+	a, w, b := mk("A"), mk("W"), mk("B")
+	sem.running[a] = struct{}{}
+	waits := 0
+	overtaken := false
+	verifOnCondWait(func() {
+		waits++
+		switch waits {
+		case 1:
+			sem.Release(a)
+			overtaken = sem.Acquire(b, true)
+		case 2:
+			// (if B was admitted, it finishes eventually)
+			sem.Release(b)
+		default:
+			verifAssume(false) // bound: two schedulings of the other parties
+		}
+	})
+	sem.Acquire(w, false)
+	verifCover("a later request arrived while an earlier one waited")
+	if verifKnown("C12-maxjobs-not-fifo") {
+		return
+	}
+	verifAssert(!overtaken, "C12: a job slot freed while a request is waiting is not given to a request which arrived later")
+}
